@@ -735,6 +735,8 @@ func (x *Run) builtin(fr *Frame, st *State, b *ssa.Builtin, cc *ssa.CallCommon, 
 		st.assume(eq(x.sliceLen(r), fmt.Sprintf("(+ %s %s)", x.sliceLen(s), x.sliceLen(t))))
 		st.assume(fmt.Sprintf("(forall ((i Int)) (! (=> (and (<= 0 i) (< i %s)) (= (select %s i) (select %s i))) :pattern ((select %s i))))", x.sliceLen(s), x.sliceArr(r), x.sliceArr(s), x.sliceArr(r)))
 		st.assume(fmt.Sprintf("(forall ((i Int)) (! (=> (and (<= 0 i) (< i %s)) (= (select %s (+ %s i)) (select %s i))) :pattern ((select %s i))))", x.sliceLen(t), x.sliceArr(r), x.sliceLen(s), x.sliceArr(t), x.sliceArr(t)))
+		// the same fact, triggered from the result side (reads of the appended slice)
+		st.assume(fmt.Sprintf("(forall ((j Int)) (! (=> (and (<= %s j) (< j (+ %s %s))) (= (select %s j) (select %s (- j %s)))) :pattern ((select %s j))))", x.sliceLen(s), x.sliceLen(s), x.sliceLen(t), x.sliceArr(r), x.sliceArr(t), x.sliceLen(s), x.sliceArr(r)))
 		_ = es
 		return ret(r)
 	case "copy":
